@@ -30,6 +30,7 @@ func Generate(out *trace.W, o RunOpts) map[string]int {
 		for _, via := range []string{"cC", "cD", "cO", "cN", "cW"} {
 			funded(out, r, fmt.Sprintf("f%d_%d_%s", o.Seed, i, via), via, stats)
 		}
+		seqs(out, r, fmt.Sprintf("q%d_%d", o.Seed, i), stats)
 	}
 	for i := 0; i < o.Grids; i++ {
 		r := rand.New(rand.NewSource(o.Seed*7000003 + int64(i)))
@@ -136,6 +137,46 @@ func funded(out *trace.W, r *rand.Rand, tid, d string, stats map[string]int) {
 	}
 	w.Views(out, c, []string{d, "a0"})
 	stats["funded"]++
+}
+
+// seqs: messages that call the precompile several times, views between the state-changing calls (contract cQ, itself
+// the delegator, holding stake and pending rewards): [view, mutate, view], [mutate, view], [mutate, mutate, view],
+// [view, view, mutate] ... Every answer is kept by the contract and judged against the state at its point of the sequence.
+func seqs(out *trace.W, r *rand.Rand, tid string, stats map[string]int) {
+	w := worldWith(r, []uint32{3, 6})
+	st := w.Genesis(out, tid)
+	c := w.C
+	n := 0
+	q := SeqCaller
+	step := func(items ...Item) {
+		checkClean(st)
+		cont := "A"
+		if r.Intn(2) == 0 {
+			cont = "B"
+		}
+		c = w.Step(out, c, st, n, SeqCall(items...), cont, stats)
+		n++
+		st = w.Accrue(out, c)
+	}
+	m := func(o Op) Item { return Item{Op: o} }
+	v := func(view, val string) Item { return Item{View: view, D: q, V: val} }
+	x := int64(r.Intn(3))
+	step(m(Op{M: "delegate", V: "v0", Amt: 10 + x}))
+	step(m(Op{M: "delegate", V: "v1", Amt: 8 + x}))
+	step(v("rewardsOf", ""), m(Op{M: "delegate", V: "v0", Amt: 2}), v("rewardsOf", ""))
+	step(v("balanceOf", ""), m(Op{M: "undelegate", V: "v0", Amt: 1}), v("balanceOf", ""))
+	step(m(Op{M: "redelegate", Src: "v1", V: "v2", Amt: 1 + x}), v("rewardsOf", ""))
+	step(v("rewardOf", "v0"), m(Op{M: "withdrawReward", V: "v0"}), v("rewardOf", "v0"))
+	step(m(Op{M: "delegate", V: "v1", Amt: 1}), m(Op{M: "delegate", V: "v0", Amt: 1}), v("balanceOf", ""))
+	step(v("delegationOf", "v0"), m(Op{M: "undelegate", V: "v0", Amt: 1}), v("totalDelegationOf", ""))
+	step(v("rewardsOf", ""), m(Op{M: "transfer", To: q, Amt: 3}), v("balanceOf", ""))
+	step(m(Op{M: "withdrawRewards"}), v("rewardsOf", ""))
+	step(v("rewardsOf", ""), v("balanceOf", ""), m(Op{M: "delegate", V: "v0", Amt: 1}))
+	step(v("balanceOf", ""), m(Op{M: "delegate", V: "v2", Amt: 1}), v("rewardsOf", ""))
+	step(m(Op{M: "delegate", V: "v0", Amt: 1}), v("rewardsOf", ""), m(Op{M: "delegate", V: "v1", Amt: 1}))
+	step(Item{View: "balanceOf", D: "a3"}, m(Op{M: "delegate", V: "v0", Amt: 1}), Item{View: "rewardsOf", D: "a3"})
+	w.Views(out, c, []string{q, "a0"})
+	stats["seqs"]++
 }
 
 func checkClean(st trace.M) {
